@@ -29,6 +29,9 @@ pub fn configs(thorough: bool) -> Vec<EpCfg> {
                     c.alph.send_fail = thorough;
                     // a refused connection attempt (failure CONNACK sent or received) leaves the session alone
                     c.connacks.push(AckProf { ok: false, ..AckProf::basic(false) });
+                    if auto && !offline && (thorough || role == RoleK::Client) {
+                        c.alph.toggle_opts = vec![0, 1];
+                    }
                     c.groups = vec!["c06"];
                     v.push(c);
                 }
